@@ -114,44 +114,44 @@ func MakeGenesis(keys []*ecdsa.PrivateKey, powers []int64, chainID string, param
 // ---------------------------------------------------------------- node
 
 type NodeOpts struct {
-	Cache     *blockchain.CacheConfig
-	FileWAL   bool // real BaseWAL on disk (needed for crash images); otherwise in-memory WAL on the real codec
-	Dir       string
-	Sched     ValSchedule
-	Config    func(*configs.ConsensusConfig)
-	RecordDB  bool // record durable units (C05)
-	NoKey     bool // observer (no validator key)
-	WALHeadLimit int64    // file WAL: head size limit (forces rotation; checked deterministically by CheckWALRotation)
-	MemWAL    interface{} // in-memory WAL to reuse across a clean restart (internal)
-	PoolCfg   *tx_pool.TxPoolConfig
+	Cache        *blockchain.CacheConfig
+	FileWAL      bool // real BaseWAL on disk (needed for crash images); otherwise in-memory WAL on the real codec
+	Dir          string
+	Sched        ValSchedule
+	Config       func(*configs.ConsensusConfig)
+	RecordDB     bool        // record durable units (C05)
+	NoKey        bool        // observer (no validator key)
+	WALHeadLimit int64       // file WAL: head size limit (forces rotation; checked deterministically by CheckWALRotation)
+	MemWAL       interface{} // in-memory WAL to reuse across a clean restart (internal)
+	PoolCfg      *tx_pool.TxPoolConfig
 }
 
 type Node struct {
-	Idx   int
-	Key   *ecdsa.PrivateKey
-	Addr  common.Address
-	Gen   *genesis.Genesis
-	Opts  NodeOpts
-	Base  kaidb.Database // underlying store (survives restarts)
-	DB    kaidb.Database // what the node uses (RecDB when recording)
-	Dur   *DurLog
-	Tr    *Trace
-	BC    *blockchain.BlockChain
-	Pool  *tx_pool.TxPool
-	Store cstate.Store
-	EvPool *evidence.Pool
-	BO    *RecBO
-	Exec  *cstate.BlockExecutor
-	CS    *consensus.ConsensusState
-	WAL   *RecWAL
-	mem   *memWAL
-	Tick  *VTicker
-	Bus   *types.EventBus
-	sent  int
-	Dead  bool   // consensus loop terminated (CONSENSUS FAILURE) or start failed
-	DeadWhy string
-	trIdx int // trace cursor of the network
-	observed bool
+	Idx                    int
+	Key                    *ecdsa.PrivateKey
+	Addr                   common.Address
+	Gen                    *genesis.Genesis
+	Opts                   NodeOpts
+	Base                   kaidb.Database // underlying store (survives restarts)
+	DB                     kaidb.Database // what the node uses (RecDB when recording)
+	Dur                    *DurLog
+	Tr                     *Trace
+	BC                     *blockchain.BlockChain
+	Pool                   *tx_pool.TxPool
+	Store                  cstate.Store
+	EvPool                 *evidence.Pool
+	BO                     *RecBO
+	Exec                   *cstate.BlockExecutor
+	CS                     *consensus.ConsensusState
+	WAL                    *RecWAL
+	mem                    *memWAL
+	Tick                   *VTicker
+	Bus                    *types.EventBus
+	sent                   int
+	Dead                   bool // consensus loop terminated (CONSENSUS FAILURE) or start failed
+	DeadWhy                string
+	trIdx                  int // trace cursor of the network
+	observed               bool
 	DroppedByValidateBasic int
 }
 
@@ -175,9 +175,11 @@ func Quiet() {
 
 // ScratchDir returns a new scratch directory (tmpfs if available).
 func ScratchDir() string {
-	base := ""
-	if fi, err := os.Stat("/dev/shm"); err == nil && fi.IsDir() {
-		base = "/dev/shm"
+	base := os.Getenv("VERIF_SCRATCH")
+	if base == "" {
+		if fi, err := os.Stat("/dev/shm"); err == nil && fi.IsDir() {
+			base = "/dev/shm"
+		}
 	}
 	d, err := os.MkdirTemp(base, "verifsim")
 	if err != nil {
@@ -453,7 +455,6 @@ func WriteWALImage(dir string, data []byte) error {
 	}
 	return os.WriteFile(filepath.Join(dir, "cs.wal", "wal"), data, 0600)
 }
-
 
 // CheckWALRotation runs the WAL group's limit check (what its ticker does periodically) and records a rotation
 // as a durable unit.
